@@ -58,8 +58,7 @@ Ltac brk :=
   repeat (cbn; match goal with
          | |- context[if ?b then _ else _] =>
              match b with context[?v] => is_var v; match type of v with bool => destruct v end end
-         | |- context[B ?b] =>
-             match b with context[?v] => is_var v; match type of v with bool => destruct v end end
+         | |- context[B ?v] => is_var v; destruct v
          | |- context[match ?p with PNone => _ | PHs => _ | PConn => _ end] => is_var p; destruct p
          end).
 Ltac row_tac := intros [c p i e h dl bf xi xp f pe ui uu ur di du dr dn px tu td uc dc rq cu ps pc phh t cl];
@@ -130,31 +129,93 @@ Lemma ok_cleanup : forall r, ph r = PConn -> fd r = true ->
   contrib (fst (cleanup_row r)) = snd (cleanup_row r) +v contrib r /\ length (snd (cleanup_row r)) = vlen /\ cid (fst (cleanup_row r)) = cid r.
 Proof.
   intros [c p i e h dl bf xi xp f pe ui uu ur di du dr dn px tu td uc dc rq cu ps pc phh t cl] H1 H2.
-  cbn in H1, H2. subst p f. unfold cleanup_row. cbn. brk; repeat split; reflexivity.
+  cbn in H1, H2. subst p f. unfold cleanup_row.
+  destruct ui, uu, di, du, px, tu, td, uc, dc; repeat split; reflexivity.
 Qed.
 
 Lemma ok_destroy : forall r, ph r = PHs -> fd r = true ->
   contrib (fst (destroy_row r)) = snd (destroy_row r) +v contrib r /\ length (snd (destroy_row r)) = vlen /\ cid (fst (destroy_row r)) = cid r.
 Proof.
   intros [c p i e h dl bf xi xp f pe ui uu ur di du dr dn px tu td uc dc rq cu ps pc phh t cl] H1 H2.
-  cbn in H1, H2. subst p f. unfold destroy_row. cbn. brk; repeat split; reflexivity.
+  cbn in H1, H2. subst p f. unfold destroy_row.
+  destruct ui, uu, di, du, px, tu, td, uc, dc; repeat split; reflexivity.
 Qed.
 
-(* rows that are live hold their descriptor; dead rows hold nothing: needed because cleanup / destroy subtract 1 *)
-Definition row_wf (r : row) : Prop :=
-  match ph r with
-  | PNone => contrib r = vz
-  | PHs => fd r = true /\ ui r = false /\ uu r = false /\ di r = false /\ du r = false /\ tu r = false /\ td r = false
-           /\ uc r = false /\ dc r = false
-  | PConn => fd r = true
-  end.
 
-Definition wf_pres (f : row -> row * vec) : Prop := forall r, row_wf r -> row_wf (fst (f r)).
+(* ---- abort of one row: everything released, descriptor closed exactly once more -------------------------- *)
+Lemma cleanup_row_zero : forall r,
+  row_zero (fst (cleanup_row r)) = true /\ contrib (fst (cleanup_row r)) = vz /\
+  closes (fst (cleanup_row r)) = closes r + 1 /\
+  reqs (fst (cleanup_row r)) = [] /\ cur (fst (cleanup_row r)) = CNone /\
+  pi_c (fst (cleanup_row r)) = false /\ pi_h (fst (cleanup_row r)) = false.
+Proof. intros r. unfold cleanup_row. cbn. repeat split; reflexivity. Qed.
 
-(* a row function that is balanced and keeps well-formedness, possibly only on well-formed rows *)
-Definition good (f : row -> row * vec) : Prop :=
-  forall r, row_wf r ->
-    contrib (fst (f r)) = snd (f r) +v contrib r /\ length (snd (f r)) = vlen /\ cid (fst (f r)) = cid r /\ row_wf (fst (f r)).
+(* a handshake row never holds connection-level resources (they are only acquired by ops on PConn rows) *)
+Definition hs_clean (r : row) : Prop :=
+  ui r = false /\ uu r = false /\ di r = false /\ du r = false /\ tu r = false /\ td r = false /\
+  uc r = false /\ dc r = false /\ reqs r = [] /\ cur r = CNone.
 
-Ltac wf_tac := intros [c p i e h dl bf xi xp f pe ui uu ur di du dr dn px tu td uc dc rq cu ps pc phh t cl] W;
-  unfold row_wf in *; cbn in *.
+Lemma destroy_row_zero : forall r, hs_clean r ->
+  row_zero (fst (destroy_row r)) = true /\ contrib (fst (destroy_row r)) = vz /\
+  closes (fst (destroy_row r)) = closes r + 1 /\
+  pi_c (fst (destroy_row r)) = false /\ pi_h (fst (destroy_row r)) = false.
+Proof.
+  intros [c p i e h dl bf xi xp f pe ui uu ur di du dr dn px tu td uc dc rq cu ps pc phh t cl] H.
+  unfold hs_clean in H. cbn in H. destruct H as (-> & -> & -> & -> & -> & -> & -> & -> & -> & ->).
+  unfold destroy_row. cbn. repeat split; reflexivity.
+Qed.
+
+(* after cleanup of connection c no block keeps a transfer of c that is not erased *)
+Lemma promote_keeps : forall (P : nat * tst -> bool) l,
+  (forall c, P (c, TN) = true -> P (c, TL) = true) ->
+  forallb P l = true -> forallb P (fst (promote l)) = true.
+Proof.
+  induction l as [|[c s] t IH]; intros HP H; cbn in *; auto.
+  apply andb_true_iff in H. destruct H as [H1 H2].
+  destruct s; cbn; try (destruct (promote t) as [t' ok] eqn:E; cbn in *; rewrite H1; cbn; apply IH; auto; fail).
+  all: try (rewrite (HP _ H1); cbn; exact H2).
+Qed.
+
+Lemma filter_forallb : forall (A : Type) (P Q : A -> bool) l, (forall x, Q x = true -> P x = true) -> forallb P (filter Q l) = true.
+Proof. induction l; cbn; intros; auto. destruct (Q a) eqn:E; cbn; auto. rewrite (H _ E). cbn. auto. Qed.
+
+Lemma forallb_filter2 : forall (A : Type) (P Q : A -> bool) l, forallb P l = true -> forallb P (filter Q l) = true.
+Proof. induction l; cbn; intros; auto. apply andb_true_iff in H. destruct H. destruct (Q a); cbn; auto. rewrite H. cbn. auto. Qed.
+
+Lemma rel_blk_no_live : forall c b, fin b = false -> no_live_tr c (rel_blk c b) = true.
+Proof.
+  intros c b Hf. unfold rel_blk, no_live_tr. rewrite Hf.
+  set (Q := fun p : nat * tst => negb (Nat.eqb (fst p) c) || tst_eqb (snd p) TE).
+  assert (K : forallb Q (filter Q (trs b)) = true) by (apply filter_forallb; auto).
+  destruct (has_st c TL b).
+  - destruct (promote (filter Q (trs b))) as [k2 ok] eqn:E. destruct ok; cbn [trs].
+    + change k2 with (fst (k2, true)). rewrite <- E. apply promote_keeps; auto.
+      intros c0 H. unfold Q in *. cbn in *. rewrite orb_false_r in *. rewrite H. reflexivity.
+    + apply forallb_filter2. exact K.
+  - cbn [trs]. exact K.
+Qed.
+
+(* refuted: with a dissimilar transfer the PeerInfo transfer counter does NOT return to zero *)
+Definition leak_ops : list op :=
+  [ Connect 0 true false; HsBytes 0 68; PeerMsg 0 MBitfield 6 6; PeerMsg 0 MUnchoke 5 5; LibMsg 0 (LRequest 7);
+    PeerMsg 0 (MPiece 7 None) 113 2061;
+    Connect 1 true false; HsBytes 1 68; PeerMsg 1 MBitfield 6 6; PeerMsg 1 MUnchoke 5 5; LibMsg 1 (LRequest 7);
+    PeerMsg 1 (MPiece 7 (Some 10%N)) 85 2061;
+    Abort 1; Abort 0; Stop ].
+
+Lemma tc_leak_witness :
+  let s := run false leak_ops in
+  rej s = false /\ g s = vz /\
+  (exists r, get_row 1 (rows s) = Some r /\ row_zero r = true /\ tc r = 1).
+Proof. vm_compute. repeat split. eexists. repeat split. Qed.
+
+Lemma no_dissimilar_example :
+  let s := run false [ Connect 0 true false; HsBytes 0 68; PeerMsg 0 MBitfield 6 6; PeerMsg 0 MUnchoke 5 5;
+                       LibMsg 0 (LRequest 7); PeerMsg 0 (MPiece 7 None) 113 2061; Abort 0 ] in
+  rej s = false /\ g s = vz /\ forallb requestable (blocks s) = true /\
+  (exists r, get_row 0 (rows s) = Some r /\ row_zero r = true /\ tc r = 0 /\ closes r = 1).
+Proof. vm_compute. repeat split. eexists. repeat split. Qed.
+
+Lemma params_ok_now :
+  Params.c16_hs_part1 = 48%N /\ Params.c16_hs_size = 68%N /\ Params.c16_piece_hdr = 13%N /\ (0 < Params.c16_max_size_pex)%Z.
+Proof. vm_compute. repeat split; congruence. Qed.
